@@ -96,15 +96,16 @@ PROPS["C13"] = {
 
 PROPS["C03"] = {
     "level": "other",
-    "technique": "Verus contracts on the extracted complete_compaction transformers of both backends (atomic swap: exactly the sources leave, target stays one level above the highest source, index invariant kept, unknown target => no change) and on the compactor's publish order",
+    "technique": "Verus typestate contracts on the extracted Compactor::compact_l0 / compact_level (the swap is requested only under the lease acquired on exactly these sources and only for the target that merging exactly them produced; a source is scheduled for deletion only after the swap that removed it succeeded), merge_chunks (upload, then register, the returned path is the registered one, registered row count and time span are those of the uploaded object, nothing else changes) and timestamp_bounds (true min / max for both column types); Verus contracts on the extracted complete_compaction transformers of both backends (atomic swap: exactly the sources leave, target stays one level above the highest source, index invariant kept, unknown target => no change) and on the compactor's publish order",
     "verus": ["c03_compaction.rs.in", "c03_compactor.rs.in"],
     "explanation": "Deductive obligations on the catalog transformers and the publish order of one compaction; row conservation of the merge itself rests on assumed arrow/parquet kernel contracts (concat_batches, sort_to_indices + take, Parquet encode/decode are value preserving). Crashes, two compactors and lease expiry are covered only through the atomic-swap contract (sources leave the catalog only inside one conditional PUT that requires the registered target) and the lease invariant of C08; interleavings are not explored.",
     "assumptions": [
+        "compactor units: acquire_lease success = an exclusive live lease on exactly these chunks (C08); complete_compaction success = exactly the sources left the catalog (catalog units); a failed request leaves the ghost state unchanged (a failed-but-applied swap only leaves garbage, never loses rows); ChunkMerger::merge returns exactly the rows of the given paths, sort_batch and the Parquet writer keep them; generate_compacted_path is fresh (uuid)",
+        "known findings F19 (probe finding_F19_compact_l0) and F20 (probe finding_F20_stale_sources), demonstrated under /verif/findings",
         "arrow concat_batches / sort_to_indices / take and the Parquet writer/reader preserve the multiset of rows",
         "conditional PUT of the catalog object is atomic (ghost store contract of prelude_s3.inc)",
         "chunk levels stay below u32::MAX",
         "in-memory backend: complete_compaction does not check that the target is registered — caller obligation, discharged at the compactor call site (merge_chunks registers the target before the swap)",
-        "known finding: a crash between register_chunk(target) and complete_compaction leaves target and sources both in the catalog (duplicate rows) until the group is compacted again",
     ],
 }
 
@@ -264,7 +265,7 @@ PROPS["C06"] = {
         "generate_path (clock + UUIDv4) returns a path not used before",
         "buffered row / byte counts stay within usize",
         "RwLock write guard = exclusive ownership of the buffer for the guarded region",
-        "known finding F4 (probe finding_F4_append_flush_failure): a failed flush drops the taken batches",
+        "fault-free scope: what happens to the taken batches when a flush fails is outside C06 (it is known finding F4 under C01)",
     ],
 }
 
@@ -273,7 +274,7 @@ PROPS["C01"] = {
     "technique": "Verus contract on the extracted recovery Ingester::ensure_wal (three nested loops: every decodable entry newer than the mark ends up in the buffer or in registered chunks and is covered by last_wal_seq; a flush issued during recovery never persists a mark that covers an entry not completely in chunks; start-up truncation cuts only what the mark covers; at every exit, also failed ones, the mark is safe); Verus effect-order contracts on the extracted write path (WAL append before buffer append before the acknowledgement; a WAL failure buffers nothing), on flush_batches (upload, registration, announcements, then WAL truncation, then the persisted mark; a failed flush never moves the mark; under quiescence the mark equals the flushed cover) and the WAL reader / header codec units of C05; two probes record the known findings F3 and F4",
     "verus": ["c01_durability.rs.in", "c06_ingest.rs.in", "c05_wal_reader.rs.in", "c05_wal_fs.rs.in", "c01_recovery.rs.in"],
     "kani": ["c05_header"],
-    "explanation": "Sequential crash-point core only: between every two effects of write and flush_batches the ordering obligations hold for all inputs and all failure points of the shimmed callees (each effect either happened or not). The schedule quantifier of C01 is NOT covered beyond one rely on the shared sequence cell, and exactly there the property fails today (known findings F3, F4, demonstrated on the real code under /verif/findings). Recovery (ensure_wal) is covered through the WAL reader contract of C05; its re-buffering loop is not under contract yet. OS-level durability of synced bytes is assumed.",
+    "explanation": "Sequential crash-point core only: between every two effects of write and flush_batches the ordering obligations hold for all inputs and all failure points of the shimmed callees (each effect either happened or not). The schedule quantifier of C01 is NOT covered beyond one rely on the shared sequence cell, and exactly there the property fails today (known findings F3, F4, demonstrated on the real code under /verif/findings). Recovery (ensure_wal) is under contract over the WAL reader contract of C05; the timer / shutdown flush (run_flush_timer: tokio::select!) is not. OS-level durability of synced bytes is assumed.",
     "assumptions": [
         "recovery: WalEntry::batches() yields the entry's batches or an error; read_entries_after returns exactly the complete entries newer than the mark in ascending order (C05 units); flush_batches registers everything handed to it and persists mark = last_wal_seq on success, persists no mark on failure (unit flush_batches); an empty buffer accepts every schema",
         "WAL append returns Ok only after the entry is durable (sync_mode EveryWrite); synced bytes survive a crash",
